@@ -38,7 +38,7 @@ RULE = ("histories = one space (SingleGrid, MultiGrid, HexSingleGrid, HexMultiGr
         "given as bound method / partial / callable object, legacy agents with pos behind a property, every drawing entry point with "
         "and without ax; IMPLEMENTATION + ORACLE ONLY streams (not model-evaluated): SCALE (6 histories with 255..5000 agents and 1-3 "
         "agents returning a key) and USER CODE (70 histories whose portrayal moves the portrayed agent, moves another agent, or raises "
-        "one of 7 exception types inside collect / draw_space / the component, each followed by ordinary draws); every history starts from the EMPTY space; non-trivial = at least one "
+        "one of 7 exception types inside collect / draw_space / the component, each followed by ordinary draws); 30 % of the histories continue on a copy.deepcopy / pickle round trip of (model, space) and then place / remove / move and draw with both back ends; every history starts from the EMPTY space; non-trivial = at least one "
         "drawing/check observation that is not a no-op and at least 3 operations; distinct = by SHA1 of the history")
 TRUSTED_BASE = [
     "Coq 8.16.1 kernel (coqc); vm_compute for the Examples, the refutation witnesses and the evaluation of the model in the correspondence",
